@@ -30,3 +30,20 @@ void h_EXPRESS_fail(void)
     __CPROVER_assert(f != 0, "C04 EXPRESS_fail yields a non-zero exit status when no fail hook is installed");
     __CPROVER_assert(g == 0, "C04 EXPRESS_succeed yields exit status 0 when no success hook is installed");
 }
+
+/* C06: looking for the file of a referenced schema never writes outside the name and path buffers, however long the name is */
+void h_find_schema_long(void)
+{
+    IN(unsigned, in_len);
+    static char name[304]; static struct Linked_List_ path; static struct Link_ pm, p1; static Dir dir;
+    __CPROVER_assume(in_len >= 1 && in_len <= 300);
+    for (unsigned i = 0; i < 304; i++) name[i] = i < in_len ? 'X' : 0;
+    path.mark = &pm; pm.next = &p1; pm.prev = &p1; p1.next = &pm; p1.prev = &pm; p1.data = &dir;
+    EXPRESS_path = &path;
+    dir.full[0] = 'd'; dir.full[1] = '/'; dir.full[2] = 0; dir.leaf = dir.full + 2;
+    g_lookup_calls = 0; g_lex_calls = 0; print_objects_while_running = 0; g_fopen_fails = 1; g_sprintf_model = 1;
+    g_lookup_never = 1;
+    Schema s = EXPRESSfind_schema(0, name);
+    __CPROVER_assert(s == 0, "a schema that is neither in the model nor on the search path is not found");
+    g_sprintf_model = 0; g_fopen_fails = 0; g_lookup_never = 0;
+}
